@@ -653,6 +653,48 @@ func genC20(o *Out, rng *rand.Rand, tier string) {
 			return subj4(p)
 		}, "netboot-ack4-every-method")
 	}
+	// a packet that carries every option the library has a type for (printing walks a decoder per option type), and
+	// relay chains whose peer addresses are EUI-64 interface identifiers, with and without a client link-layer option
+	for k := 0; k < 4; k++ {
+		kk := k
+		exhaustive(func(r *rand.Rand) subject {
+			p, _ := dhcpv4.New()
+			copy(p.TransactionID[:], randBytes(r, 4))
+			for i := 0; i < 14; i++ { // (standalone4 draws one of its twelve kinds)
+				o := standalone4(r)
+				p.UpdateOption(o)
+			}
+			p.UpdateOption(dhcpv4.OptClasslessStaticRoute(&dhcpv4.Route{Dest: &net.IPNet{IP: net.IPv4(10, 9, 0, 0).To4(), Mask: net.CIDRMask(16, 32)}, Router: net.IPv4(10, 0, 0, 1).To4()},
+				&dhcpv4.Route{Dest: &net.IPNet{IP: net.IPv4(0, 0, 0, 0).To4(), Mask: net.CIDRMask(0, 32)}, Router: net.IPv4(10, 0, 0, 254).To4()}))
+			p.UpdateOption(dhcpv4.OptVIVC(dhcpv4.VIVCIdentifier{EntID: 9, Data: []byte("SN:1;PID:x")}, dhcpv4.VIVCIdentifier{EntID: 4242, Data: []byte{1, 2, 3}}))
+			p.UpdateOption(dhcpv4.OptRelayAgentInfo(dhcpv4.OptGeneric(dhcpv4.AgentRemoteIDSubOption, []byte("rid")), dhcpv4.OptGeneric(dhcpv4.AgentCircuitIDSubOption, []byte("Ethernet1/2"))))
+			p.UpdateOption(dhcpv4.OptRFC3004UserClass([]string{"ipxe", "boot"}))
+			p.UpdateOption(dhcpv4.OptClientArch(iana.EFI_X86_64, iana.EFI_ARM64))
+			p.UpdateOption(dhcpv4.OptDomainSearch(&rfc1035label.Labels{Labels: []string{"a.example", "b.a.example"}}))
+			if kk%2 == 1 {
+				if q, err := dhcpv4.FromBytes(p.ToBytes()); err == nil {
+					return subj4(q)
+				}
+			}
+			return subj4(p)
+		}, "packet4-all-typed-options")
+		exhaustive(func(r *rand.Rand) subject {
+			inner := &dhcpv6.Message{MessageType: dhcpv6.MessageTypeSolicit}
+			copy(inner.TransactionID[:], randBytes(r, 3))
+			inner.AddOption(dhcpv6.OptClientID(&dhcpv6.DUIDLL{HWType: 1, LinkLayerAddr: randBytes(r, 6)}))
+			var d dhcpv6.DHCPv6 = inner
+			for lvl := 0; lvl <= kk%3; lvl++ {
+				peer := net.IP(append(append(append(net.ParseIP("fe80::")[:8:8], randBytes(r, 3)...), 0xff, 0xfe), randBytes(r, 3)...))
+				rm, _ := dhcpv6.EncapsulateRelay(d, dhcpv6.MessageTypeRelayForward, net.ParseIP("2001:db8::1"), peer)
+				if kk == 3 && lvl == 0 {
+					rm.AddOption(dhcpv6.OptClientLinkLayerAddress(1, net.HardwareAddr(randBytes(r, 6))))
+				}
+				rm.AddOption(dhcpv6.OptInterfaceID([]byte("Ethernet1/2/3")))
+				d = rm
+			}
+			return subj6(d)
+		}, "relay6-eui64-peers-every-method")
+	}
 	// messages holding several instances of the same option type (accessors that merge or pick among them)
 	for k := 0; k < 12; k++ {
 		exhaustive(func(r *rand.Rand) subject {
